@@ -25,6 +25,7 @@ LIBTEXT = {
     "w": ("W{{u|{{{1|}}}}}", False),
     "v": ("V{{s|{{{k|}}}}}", False),
     "f": ("F{{u|{{{1|}}}}}", True),
+    "e0": ("{{{1|}}}", False),     # expands to nothing when called without argument
 }
 # the same bodies as ASTs for the reference
 LIBAST = {
@@ -33,9 +34,10 @@ LIBAST = {
     "w": ("SEQ", [("T", "W"), ("C", "u", [(None, ("P", "1", ("T", "")))])]),
     "v": ("SEQ", [("T", "V"), ("C", "s", [(None, ("P", "k", ("T", "")))])]),
     "f": ("SEQ", [("T", "F"), ("C", "u", [(None, ("P", "1", ("T", "")))])]),
+    "e0": ("P", "1", ("T", "")),
 }
 FLAGGED = {"s", "f"}
-SETS_EXPAND = [None, [], ["u"], ["w"], ["u", "w"], ["v"]]
+SETS_EXPAND = [None, [], ["u"], ["w"], ["u", "w"], ["v"], ["e0", "u"]]
 SETS_NOT = [None, [], ["s", "f"], ["u"], ["s", "u", "f"], ["s"]]
 HOOKS = ["none", "ret_none", "mark_u", "mark_all"]
 
@@ -121,7 +123,7 @@ class Ref:
             else:
                 res = self.ev(LIBAST[name], args, all_ or (name in FLAGGED and self.cfg.get("ctx") == "wikipedia"))
         res = addnl(res)
-        if self.cfg["post_template_fn"] != "none" and res:
+        if self.cfg["post_template_fn"] != "none":     # also for an empty expansion
             self.ptf_calls.append((name, tuple(sorted(args.items(), key=str)), res))
             r2 = hook_result(self.cfg["post_template_fn"], name)
             if r2 is not None:
@@ -243,6 +245,10 @@ def pages(tier):
         ("C", "w", [(None, ("C", "s", []))]),
         ("P", "arg", ("C", "u", [(None, ("T", "5"))])),
         ("SW", ("C", "u", []), "x", ("C", "s", []), ("C", "w", [])),
+        ("C", "e0", []),
+        ("SEQ", [("C", "e0", []), ("C", "u", [(None, ("T", "a"))])]),
+        ("C", "e0", [(None, ("T", "q"))]),
+        ("C", "u", [(None, ("C", "e0", []))]),
         ("C", "f", [(None, ("T", "z"))]),
         ("SEQ", [("C", "f", [(None, ("T", "z"))]), ("C", "u", [(None, ("T", "a"))])]),
         ("SEQ", [("C", "u", [(None, ("T", "a"))]), ("C", "f", []), ("C", "w", [(None, ("T", "b"))])]),
